@@ -297,8 +297,11 @@ pub fn c15(ctx: &Ctx) -> ! {
             let mut c = map_docs(b, &|d| {
                 let mut lines: Vec<String> = d.lines.iter().rev().cloned().collect();
                 lines.push(" changed.".into());
+                // (`///` followed by a text that starts with `/` is `////..`: not a doc comment)
+                let slash = lines.iter().any(|l| l.starts_with('/'));
                 let style = match d.style {
                     DocStyle::Line => DocStyle::Attr,
+                    DocStyle::Attr | DocStyle::Block if slash => DocStyle::Attr,
                     DocStyle::Attr => DocStyle::Line,
                     DocStyle::Block => DocStyle::Line,
                 };
